@@ -1,5 +1,8 @@
 import WhatIs.Model.Pgp
 import WhatIs.Lemmas.Pgp
+import WhatIs.Model.PgpFrame
+import WhatIs.Spec.Rfc4880Frame
+import WhatIs.Lemmas.PgpFrame
 /-
   Props/C12.lean — PROPERTY THEOREMS for C12 (PGP fingerprint, key ID, algorithm, usage and dates are exact).
   `b` ranges over ALL byte strings (packet bodies); `sha1` is an arbitrary function (the hash is an oracle).
@@ -42,5 +45,26 @@ example :
     let b : Bytes := [4, 0x65, 0x53, 0xF1, 0x00, 1, 0, 9, 1, 0xFF, 0, 2, 3]
     ∃ k, parseBody b = some (k, []) ∧ serializeBody k = b ∧ sigPrefix k = [0x99, 0, 13] := by
   refine ⟨⟨0x6553F100, 1, .rsa ⟨9, [1, 0xFF]⟩ ⟨2, [3]⟩⟩, by decide, by decide, by decide⟩
+
+/-- THE PACKET AS IT APPEARS IN THE INPUT: a packet framed per RFC 4880 §4.2 — new format with a one-, two- or
+    five-octet length, old format with a one-, two- or four-octet length, or partial body lengths — is handed to the
+    key parser with exactly its tag and exactly its body octets, and reading continues right after it -/
+theorem frame_new (tag : Nat) (body rest : Bytes) (ht : tag < 64) (hb : body.Valid) (hl : body.length < 4294967296) :
+    PgpFrame.next (Spec.Frame.encNew tag body ++ rest) = .pkt tag body rest :=
+  Lemmas.PgpFrame.next_encNew tag body rest ht hb hl
+
+theorem frame_old (tag : Nat) (body rest : Bytes) (ht : tag < 16) (hb : body.Valid) (hl : body.length < 4294967296) :
+    PgpFrame.next (Spec.Frame.encOld tag body ++ rest) = .pkt tag body rest :=
+  Lemmas.PgpFrame.next_encOld tag body rest ht hb hl
+
+theorem frame_partial (tag : Nat) (chunks : List (Nat × Bytes)) (last rest : Bytes) (ht : tag < 64)
+    (hne : chunks ≠ []) (hc : Spec.Frame.chunksOk chunks = true) (hl : last.length < 4294967296) (hv : last.Valid) :
+    PgpFrame.next (Spec.Frame.encPartial tag chunks last ++ rest) = .pkt tag (Spec.Frame.chunksBody chunks last) rest :=
+  Lemmas.PgpFrame.next_encPartial tag chunks last rest ht hne hc hl hv
+
+/-- the three framings on a concrete user-id packet -/
+example : PgpFrame.next (Spec.Frame.encNew 13 [65, 66] ++ [1]) = .pkt 13 [65, 66] [1] ∧
+    PgpFrame.next (Spec.Frame.encOld 13 [65, 66] ++ [1]) = .pkt 13 [65, 66] [1] ∧
+    PgpFrame.next (Spec.Frame.encPartial 13 [(1, [65, 66])] [67] ++ [1]) = .pkt 13 [65, 66, 67] [1] := by decide
 
 end WhatIs.C12
